@@ -43,10 +43,10 @@ PROPS = {
         harness=[dict(bin="h-gogenproto")],
         trusted=[GO_TRUST % "h-gogenproto", "filepath.WalkDir/Abs/Rel/Join, strings.Cut, os/exec (modelled as operations on component lists / a tree, compared differentially, not verified)", "go/packages: the package path of a directory is the parameter pkgOf of the theorems; the driver instantiates it with <module path>/<dir relative to the module root>", "the recording /bin/sh stub that stands in for protoc"],
         assumptions=["a file's `declares option go_package` bit is an attribute of the model's file node; the line scan of protoFileHasGoPackage is not modelled (canonical `option go_package = \"...\";` in the domain stream; other spellings only in the out-of-domain stream)", "explicit =prefix values are clean relative import paths (no empty, `.` or `..` components); directory names contain no `=`", "every directory whose package is looked up lies in the scratch module and holds a Go file"],
-        level_text="PLACEHOLDER",
-        level_note="PLACEHOLDER",
+        level_text="Machine-checked Lean 4 theorems (kernel-only axioms) over a model that mirrors Generate.Run / findProtos statement by statement (the WalkDir callback with its `pathname == g.InputDir` special case and SkipDir, the fixed/vtproto/grpc argument blocks, the include loop with strings.Cut, -I, the go_package skip, prefix join vs. package lookup, one M option per requested plugin, the trailing file operands), for EVERY directory tree of any depth and size, every list of include roots and every flag setting: protos_named_iff + protos_exactly_once (a file operand is passed exactly for the regular *.proto files directly inside the input dir, or anywhere below it with -recurse, each exactly once, nothing else), includes_present (the -I arguments are exactly the absolute input dir and the absolute include dirs), mapping_iff_no_go_package (+ mapping_to_every_requested_plugin: an M<rel>=<pkg> option reaches plugin p iff p is requested and <rel> is a proto below one of those roots that does not declare go_package, <pkg> being the prefix joined with the relative directory or the directory's Go package), plugins_iff_flags, single_invocation, isProtoName_iff (filepath.Ext test = name ends in .proto). The spec side (HasFile/InScope/specPkg) restates the property text and does not mention the walk. The package of a directory is a parameter of the theorems. Tied to /repo by differential execution: generated trees x all 8 flag settings x input spellings x entry points (gen.Generate.Run in-process and the CLI built from cmd/gogenproto, incl. the PWD default) with protoc replaced by a recording stub; argv (file operands resolved to the file they name) and cwd are compared with the model, and the stub's record count checks the single invocation.",
+        level_note="Trusted: Lean kernel + propext/Quot.sound/Classical.choice; the Go harness, the /bin/sh recording stub and the Lean driver incl. canonicalisation (argv compared as a sorted multiset, file operands by identity, -I and M options literally); filepath.WalkDir/Abs/Rel/Join, strings.Cut and os/exec are represented by tree recursion and component-list operations and only compared differentially; go/packages is a parameter (pkgOf). Not modelled: the line scan of protoFileHasGoPackage (a file's `declares go_package` bit is an input of the model; only the canonical spelling `option go_package = ...;` is in the domain stream - other legal spellings such as `option go_package=...;` without spaces, or a commented-out option, make the scan disagree with the declaration and are recorded as out-of-domain drift), symlinks, the 64 KiB scanner limit. Theorem hypotheses concern the input only: distinct names per directory (exactly-once), the input dir is not a regular file of an include tree, explicit prefixes are clean relative import paths.",
         technique="Lean 4 proof (mutual structural induction over directory trees) + differential correspondence on generated trees x flag settings through a recording protoc stub",
-        explanation="PLACEHOLDER",
+        explanation="all clauses proved on the model for all trees/flags (package lookup parametric, go_package detection an input bit); correspondence on 120 trees x 8 flag settings quick, 2400 x 8 thorough, 4 worker processes",
     ),
 }
 
